@@ -11,7 +11,7 @@ import time
 
 import abnf.parser as P
 
-DRIVER = os.path.join(os.path.dirname(os.path.abspath(__file__)), "..", "ocaml", "driver")
+DRIVER = os.path.join(os.path.dirname(os.path.abspath(__file__)), "..", "ocaml", "rundriver")
 NAMECH = "abcdefghijklmnopqrstuvwxyzABCDEFGHIJKLMNOPQRSTUVWXYZ0123456789-"
 
 
